@@ -376,6 +376,9 @@ class AbsInt:
             return self.guard(st, a[1], truth)
         if k == 'cast':
             return self.guard(st, a[2], truth)
+        if k == 'var' and a[0] in getattr(self, 'bool_defs', {}):
+            # a local that names a condition (declared once, never reassigned): the test is a test of that condition
+            return self.guard(st, self.bool_defs[a[0]], truth)
         if k == 'bin' and a[0] in ('&&', '||'):
             conj = (a[0] == '&&') == truth
             if conj:
@@ -458,6 +461,8 @@ class AbsInt:
 
     def run(self, body, st):
         self.ret_states = []
+        from .paths import Engine
+        self.bool_defs = Engine._bool_defs(None, body)
         out, brk, cont = self.block(body, [st])
         return _joinall(out)
 
